@@ -33,6 +33,7 @@ def _probe(ex, run_body, entry: State, extra_locals=()):
         ex.probing += 1
         saved_exits, saved_obl = ex.exits, ex.obligations
         ex.exits, ex.obligations = [], []
+        h_before = st.h            # immutable snapshot: run_body mutates `st` in place
         fr_saved = ex.loop_frames
         from .symexec import LoopFrame
         fr = LoopFrame()
@@ -47,9 +48,9 @@ def _probe(ex, run_body, entry: State, extra_locals=()):
         grew = False
         for f in finals:
             for n in f.h.arr:
-                if n not in mod_arr and not z3.eq(f.h.arr[n], st.h.arr[n]):
+                if n not in mod_arr and not z3.eq(f.h.arr[n], h_before.arr[n]):
                     mod_arr.add(n); grew = True
-            if not mod_alloc and not z3.eq(f.h.alloc, st.h.alloc):
+            if not mod_alloc and not z3.eq(f.h.alloc, h_before.alloc):
                 mod_alloc = True; grew = True
         if not grew:
             break
@@ -57,13 +58,13 @@ def _probe(ex, run_body, entry: State, extra_locals=()):
 
 
 def _havoc_into(ex, st: State, mod_arr, mod_alloc, mod_locals, entry: State, tag='lp'):
-    for n in mod_arr:
+    for n in sorted(mod_arr):
         st.set_arr(n, ex.fresh(st.h.arr[n].sort(), n + '!' + tag))
     if mod_alloc:
         na = ex.fresh(z3.IntSort(), 'alloc!' + tag)
         st.assume(na >= entry.h.alloc)
         st.h = st.h.with_(alloc=na)
-    for n in mod_locals:
+    for n in sorted(mod_locals):
         if n in entry.locals:
             st.locals[n] = _fresh_like(ex, entry.locals[n], n, st)
         else:
@@ -179,6 +180,9 @@ def exec_for(ex, s: ast.For, st: State) -> list[State]:
     finally:
         ex.loop_ctx_stack.pop()
     ex.loop_ordinal = saved_ord
+    import os as _os
+    if _os.environ.get('PYVC_TRACE_LOOPS') and not ex.probing:
+        print('   [loop %d of %s] writes %s alloc=%s' % (ordinal, ex.contract.short, sorted(mod_arr), mod_alloc))
     mod_locals = _assigned_names(s.body) | _assigned_names([ast.Expr(s.target)])
     mod_locals |= {n.id for n in ast.walk(s.target) if isinstance(n, ast.Name)}
 
